@@ -4,6 +4,7 @@ import array
 import itertools
 import random as _random
 import struct
+import warnings
 from collections import Counter
 
 import numpy
@@ -12,7 +13,7 @@ from lib import Case, fbits
 from tape import TapeExhausted, TapeMismatch
 from deap import creator, tools
 
-ANCHORS = [("deap/tools/crossover.py", ["cxOnePoint", "cxTwoPoint", "cxUniform", "cxPartialyMatched",
+ANCHORS = [("deap/tools/crossover.py", ["cxOnePoint", "cxTwoPoint", "cxTwoPoints", "cxESTwoPoints", "cxUniform", "cxPartialyMatched",
                                         "cxUniformPartialyMatched", "cxOrdered", "cxMessyOnePoint",
                                         "cxESTwoPoint"]),
            ("deap/tools/mutation.py", ["mutShuffleIndexes", "mutFlipBit", "mutUniformInt", "mutInversion"])]
@@ -24,6 +25,8 @@ RULE = ("exhaustive (forced value tape): PMX = all permutation pairs of 0..n-1 (
         "shuffle / inversion / uniform-int = all draws for n<=4 (3). long permutations: n in 257..400 for PMX/UPMX/OX every run. "
         "random (recorded tape): n<=12, equal and different lengths, list / array('b','i','q','d') / numpy backing, |gene| up to "
         "2^40, float strategies, bounds as int/list/tuple/range/array up to +-2^40, indpb in {0, 1, boundary, random}. "
+        "Call forms: every exported name of an operator is a stream of its own (cxTwoPoints, cxESTwoPoints = the documented "
+        "former names) and parameters are passed positionally or by keyword (toolbox.register style). "
         "Non-trivial = the draws make the operator change at least one argument")
 EXHAUSTIVE = {"quick": False, "thorough": False}
 TIME_BUDGET = {"quick": 60, "thorough": 900}
@@ -325,7 +328,11 @@ def bound_tok(b):
 # ------------------------------------------------------------------------------------------------
 # evaluate
 # ------------------------------------------------------------------------------------------------
-CROSS = {"onepoint": tools.cxOnePoint, "twopoint": tools.cxTwoPoint, "uniform": tools.cxUniform,
+# documented former names, still exported by deap.tools: separate streams, same statement
+ALIAS = {"twopoints": "twopoint", "estwopoints": "estwopoint"}
+ESOPS = {"estwopoint": "cxESTwoPoint", "estwopoints": "cxESTwoPoints"}
+CROSS = {"onepoint": tools.cxOnePoint, "twopoint": tools.cxTwoPoint, "twopoints": tools.cxTwoPoints,
+         "uniform": tools.cxUniform,
          "messy": tools.cxMessyOnePoint, "pmx": tools.cxPartialyMatched, "upmx": tools.cxUniformPartialyMatched,
          "ox": tools.cxOrdered}
 MUT = {"shuffle": tools.mutShuffleIndexes, "flip": tools.mutFlipBit, "flipb": tools.mutFlipBit,
@@ -345,7 +352,9 @@ def split_draws(draws):
 
 def evaluate(d):
     try:
-        return _evaluate(d)
+        with warnings.catch_warnings():
+            warnings.simplefilter("ignore")          # the former names emit a FutureWarning
+            return _evaluate(d)
     except (TapeExhausted, TapeMismatch) as e:
         # the code draws differently from the anchored code: the model cannot replay it.  That breaks the
         # correspondence; it is not a failing input of the property.
@@ -371,7 +380,9 @@ def _evaluate(d):
         if orc is None:
             orc = msg
 
-    if op == "estwopoint":
+    base = ALIAS.get(op, op)
+    kw = d.get("kw", False)           # parameters by keyword, as toolbox.register(..., indpb=...) passes them
+    if base == "estwopoint":
         sfloat = d.get("sfloat", False)
         sa = [x / 8.0 for x in d["sa"]] if sfloat else list(d["sa"])
         sb = [x / 8.0 for x in d["sb"]] if sfloat else list(d["sb"])
@@ -386,12 +397,12 @@ def _evaluate(d):
             i1.strategy, i2.strategy = array.array(sc, sa), array.array(sc, sb)
         s1, s2 = i1.strategy, i2.strategy
         with tape:
-            ret = tools.cxESTwoPoint(i1, i2)
+            ret = getattr(tools, ESOPS[op])(i1, i2)
         _, ints = split_draws(tape.draws)
         ids = ident(ret, (i1, i2)) + ident((i1.strategy, i2.strategy), (i1, i2, s1, s2))
         line = None
         if len(ints) == 2:
-            line = "C09 estwopoint %s %s %s %s %d %d" % (ilist(d["a"]), stok(sa), ilist(d["b"]), stok(sb), ints[0], ints[1])
+            line = "C09 %s %s %s %s %s %d %d" % (op, ilist(d["a"]), stok(sa), ilist(d["b"]), stok(sb), ints[0], ints[1])
         exp = "%s %s %s %s %s" % (tlist(i1), stok(s1), tlist(i2), stok(s2), " ".join(ids))
         if not (isinstance(ret, tuple) and len(ret) == 2 and ret[0] is i1 and ret[1] is i2):
             fail("returned objects are not the two arguments")
@@ -412,7 +423,7 @@ def _evaluate(d):
             if len(c1) != len(d["a"]) or len(c2) != len(d["b"]):
                 fail("lengths not kept")
         changed = [val(x) for x in i1] != d["a"] or [val(x) for x in i2] != d["b"] or [val(x) for x in s1] != sa
-        tag = "estwopoint/%s/%s%s" % (back, "eq" if len(d["a"]) == len(d["b"]) else "ne", "/fstrat" if sfloat else "")
+        tag = "%s/%s/%s%s" % (op, back, "eq" if len(d["a"]) == len(d["b"]) else "ne", "/fstrat" if sfloat else "")
         return finish(d, line, exp, orc, tag, changed)
 
     if op in CROSS:
@@ -421,7 +432,7 @@ def _evaluate(d):
         indpb = d.get("indpb")
         with tape:
             if op in ("uniform", "upmx"):
-                ret = CROSS[op](i1, i2, indpb)
+                ret = CROSS[op](i1, i2, indpb=indpb) if kw else CROSS[op](i1, i2, indpb)
             else:
                 ret = CROSS[op](i1, i2)
         rs, ints = split_draws(tape.draws)
@@ -438,7 +449,7 @@ def _evaluate(d):
             fail("returned objects are not the two arguments (in place)")
         c1, c2 = [val(x) for x in ret[0]], [val(x) for x in ret[1]]
         kind = d.get("kind", "")
-        if op in ("onepoint", "twopoint", "uniform", "messy"):
+        if base in ("onepoint", "twopoint", "uniform", "messy"):
             if Counter(c1 + c2) != Counter(p1 + p2):
                 fail("combined multiset of genes changed: %r %r -> %r %r" % (p1, p2, c1, c2))
             if op != "messy":
@@ -447,7 +458,7 @@ def _evaluate(d):
                     fail(m)
             if op == "onepoint" and (len(c1) != len(p2) or len(c2) != len(p1)):
                 fail("one-point: lengths not exchanged (%d,%d) -> (%d,%d)" % (len(p1), len(p2), len(c1), len(c2)))
-            if op in ("twopoint", "uniform") and (len(c1) != len(p1) or len(c2) != len(p2)):
+            if base in ("twopoint", "uniform") and (len(c1) != len(p1) or len(c2) != len(p2)):
                 fail("lengths not kept (%d,%d) -> (%d,%d)" % (len(p1), len(p2), len(c1), len(c2)))
         elif kind != "garbage":
             if not (is_perm(p1) and is_perm(p2) and len(p1) == len(p2)):
@@ -457,7 +468,7 @@ def _evaluate(d):
                 fail("%s turned permutations %s into %s" % (op, "of length %d" % len(p1) if big else "%r %r" % (p1, p2),
                                                               "non-permutations" if big else "%r %r" % (c1, c2)))
         changed = c1 != p1 or c2 != p2
-        tag = "%s/%s/%s%s" % (op, back, "eq" if len(p1) == len(p2) else "ne", "/" + kind if kind else "")
+        tag = "%s/%s/%s%s%s" % (op, back, "eq" if len(p1) == len(p2) else "ne", "/" + kind if kind else "", "/kw" if kw else "")
         return finish(d, line, exp, orc, tag, changed)
 
     if op in MUT:
@@ -469,11 +480,12 @@ def _evaluate(d):
         low = up = None
         with tape:
             if op in ("shuffle", "flip", "flipb", "flipf"):
-                ret = MUT[op](ind, indpb)
+                ret = MUT[op](ind, indpb=indpb) if kw else MUT[op](ind, indpb)
             elif op == "uniformint":
                 low = mk_bound(d.get("lowkind", "list" if isinstance(d["low"], list) else "scalar"), d["low"])
                 up = mk_bound(d.get("upkind", "list" if isinstance(d["up"], list) else "scalar"), d["up"])
-                ret = tools.mutUniformInt(ind, low, up, indpb)
+                ret = (tools.mutUniformInt(ind, low=low, up=up, indpb=indpb) if kw
+                       else tools.mutUniformInt(ind, low, up, indpb))
             else:
                 ret = tools.mutInversion(ind)
         rs, ints = split_draws(tape.draws)
@@ -522,7 +534,7 @@ def _evaluate(d):
                         fail("gene %d became the non-integer %r" % (i, ret[0][i]))
                     if y != x and not (lo <= y <= hi):
                         fail("gene %d changed from %r to %r outside [%r,%r]" % (i, x, y, lo, hi))
-        tag = "%s/%s%s" % (op, back, "/" + kind if kind else "")
+        tag = "%s/%s%s%s" % (op, back, "/" + kind if kind else "", "/kw" if kw else "")
         if op == "uniformint":
             tag += "/%s-%s" % (d.get("lowkind", "-"), d.get("upkind", "-"))
         return finish(d, line, exp, orc, tag, c != p)
@@ -582,11 +594,12 @@ def exhaustive(tier):
                         yield {"op": "onepoint", "back": back, "a": a, "b": b, "tape": [ri(c)]}
                     for c1 in range(1, size + 1):
                         for c2 in range(1, size):
-                            yield {"op": "twopoint", "back": back, "a": a, "b": b, "tape": [ri(c1), ri(c2)]}
-                            yield {"op": "estwopoint", "back": back, "a": a, "b": b,
-                                   "sa": [100 + x for x in a], "sb": [100 + x for x in b],
-                                   "sfloat": back != "list" or (n1 + n2) % 2 == 0,
-                                   "tape": [ri(c1), ri(c2)]}
+                            for form in ("twopoint", "twopoints"):
+                                yield {"op": form, "back": back, "a": a, "b": b, "tape": [ri(c1), ri(c2)]}
+                                yield {"op": "es" + form, "back": back, "a": a, "b": b,
+                                       "sa": [100 + x for x in a], "sb": [100 + x for x in b],
+                                       "sfloat": back != "list" or (n1 + n2) % 2 == 0,
+                                       "tape": [ri(c1), ri(c2)]}
                 if n1 <= 4 and n2 <= 4:
                     for c1 in range(0, n1 + 1):
                         for c2 in range(0, n2 + 1):
@@ -701,13 +714,15 @@ def rand_bound_pair(rng, n, huge):
     return seq(lk, m1, True), seq(uk, m2, False), lk, uk
 
 
-OPS = ["onepoint", "twopoint", "uniform", "messy", "estwopoint", "pmx", "upmx", "ox",
+OPS = ["onepoint", "twopoint", "twopoints", "uniform", "messy", "estwopoint", "estwopoints", "pmx", "upmx", "ox",
        "shuffle", "flip", "flipb", "flipf", "uniformint", "inversion"]
 
 
 def random_case(rng, op=None):
     op = op or rng.choice(OPS)
     d = {"op": op, "tapeseed": rng.getrandbits(48)}
+    if op in ("uniform", "upmx", "shuffle", "flip", "flipb", "flipf", "uniformint"):
+        d["kw"] = rng.random() < 0.5
     elementwise = op in ("uniform", "pmx", "upmx", "ox", "shuffle", "flip", "flipb", "flipf", "uniformint")
     if op in ("pmx", "upmx", "ox"):
         d["back"] = rng.choice(["list", "array", "array_b", "array_q", "numpy"])
@@ -719,18 +734,18 @@ def random_case(rng, op=None):
         d["back"] = rng.choice(["list", "list", "array_d", "numpy"])
     elif op == "uniformint":
         d["back"] = rng.choice(["list", "list", "array", "array_q", "numpy"])
-    elif op == "estwopoint":
+    elif op in ESOPS:
         d["back"] = rng.choice(["list", "array", "array_q", "array_d"])
     else:
         d["back"] = rng.choice(["list", "array", "array_b", "array_q", "array_d"] + (["numpy"] if elementwise else []))
     back = d["back"]
-    if op in ("onepoint", "twopoint", "uniform", "estwopoint"):
+    if op in ("onepoint", "twopoint", "twopoints", "uniform", "estwopoint", "estwopoints"):
         n1 = rng.randint(2, 12)
         n2 = n1 if rng.random() < 0.5 else rng.randint(2, 12)
         if op == "uniform" and rng.random() < 0.1:
             n1 = rng.randint(0, 1)
         d["a"], d["b"] = rand_genes(rng, n1, back), rand_genes(rng, n2, back)
-        if op == "estwopoint":
+        if op in ESOPS:
             d["sfloat"] = rng.random() < 0.6
             d["sa"], d["sb"] = rand_genes(rng, n1, "array"), rand_genes(rng, n2, "array")
         if op == "uniform":
@@ -825,7 +840,8 @@ def shrink(d):
     if "tapeseed" in d:
         try:
             tape = make_tape(d)
-            with tape:
+            with tape, warnings.catch_warnings():
+                warnings.simplefilter("ignore")
                 _run(d)
         except Exception:  # noqa
             return
@@ -849,10 +865,10 @@ def shrink(d):
 def _run(d):
     """runs the operator of case `d` once (inside an entered tape) to collect its draws"""
     op, back = d["op"], d.get("back", "list")
-    if op == "estwopoint":
+    if op in ESOPS:
         i1, i2 = creator.C09ESList(d["a"]), creator.C09ESList(d["b"])
         i1.strategy, i2.strategy = list(d["sa"]), list(d["sb"])
-        tools.cxESTwoPoint(i1, i2)
+        getattr(tools, ESOPS[op])(i1, i2)
     elif op in CROSS:
         i1, i2 = mk(back, d["a"]), mk(back, d["b"])
         if op in ("uniform", "upmx"):
